@@ -71,19 +71,19 @@ static bool expect_frame(Rig &rig, const Run &run, size_t s, size_t e, const Byt
         }
     for (size_t o : run.overflows)
         ovf |= o >= s && o <= e;
-    std::string base = mc::fmt("C05.%s.resync.%s.", gs::codec_name(rig.codec), scenario);
+    std::string base = mc::fmt("C05.%s.%s.", gs::codec_name(rig.codec), scenario);
     if (fits)
     {
         if (!delivered_at_end)
         {
             mc::violation(base + which + "_not_delivered", "cap=%d stream=%s: frame at bytes %zu..%zu (payload %s) was not delivered on its last byte",
-                          rig.cap, gsref::hex(rig.stream).c_str(), s, e, gsref::hex(p).c_str());
+                          rig.cap, shx(rig.stream).c_str(), s, e, shx(p).c_str());
             return false;
         }
         if (got != p)
         {
             mc::violation(base + which + "_delivered_wrong", "cap=%d stream=%s: frame at bytes %zu..%zu payload %s delivered as %s", rig.cap,
-                          gsref::hex(rig.stream).c_str(), s, e, gsref::hex(p).c_str(), gsref::hex(got).c_str());
+                          shx(rig.stream).c_str(), s, e, shx(p).c_str(), shx(got).c_str());
             return false;
         }
         return true;
@@ -91,13 +91,13 @@ static bool expect_frame(Rig &rig, const Run &run, size_t s, size_t e, const Byt
     if (delivered_inside)
     {
         mc::violation(base + which + "_too_long_but_delivered", "cap=%d stream=%s: frame at bytes %zu..%zu (payload %s) does not fit", rig.cap,
-                      gsref::hex(rig.stream).c_str(), s, e, gsref::hex(p).c_str());
+                      shx(rig.stream).c_str(), s, e, shx(p).c_str());
         return false;
     }
     if (!ovf)
     {
         mc::violation(base + which + "_too_long_but_no_overflow_answer", "cap=%d stream=%s: frame at bytes %zu..%zu (payload %s) does not fit",
-                      rig.cap, gsref::hex(rig.stream).c_str(), s, e, gsref::hex(p).c_str());
+                      rig.cap, shx(rig.stream).c_str(), s, e, shx(p).c_str());
         return false;
     }
     return true;
@@ -128,7 +128,7 @@ static void garbage_prefix_case(int codec)
     }
     int cap = CAPS[mc::choose(2)];
     mc::describe("codec=%s cap=%d garbage=%s then frame(p1) frame(p2) for all 16 payload pairs", gs::codec_name(codec), cap,
-                 gsref::hex(g).c_str());
+                 shx(g).c_str());
     bool interesting = false;
     for (uint8_t c : g)
         interesting |= gsref::is_marker(M, c);
@@ -149,8 +149,8 @@ static void garbage_prefix_case(int codec)
             size_t e2 = rig.stream.size() - 1;
             bool ok1 = true, ok2;
             if (!M.same() || g.empty())
-                ok1 = expect_frame(rig, run, s1, s2 - 1, p1, "garbage_prefix", "first_frame");
-            ok2 = expect_frame(rig, run, s2, e2, p2, "garbage_prefix", "second_frame");
+                ok1 = expect_frame(rig, run, s1, s2 - 1, p1, "resync.garbage_prefix", "first_frame");
+            ok2 = expect_frame(rig, run, s2, e2, p2, "resync.garbage_prefix", "second_frame");
             mc::outcome(mc::fmt("%s deliveries=%zu overflows=%zu ok=%d%d", gs::codec_name(codec), run.deliveries.size(),
                                 run.overflows.size(), ok1, ok2));
         }
@@ -236,7 +236,7 @@ static void run_faulted(const FaultCtx &x, int nf, const int *slot, const char *
         if (x.M.same() && last_disturbed >= 0 && last_disturbed > i - 2)
             required = false;
         if (required)
-            oc += expect_frame(rig, run, fs[i], fe[i], *x.p[i], "fault_sequences", "untouched_frame") ? "Y" : "N";
+            oc += expect_frame(rig, run, fs[i], fe[i], *x.p[i], "resync.fault_sequences", "untouched_frame") ? "Y" : "N";
         else
             oc += "-";
         if (touched[i] || !fits)
@@ -280,8 +280,8 @@ static void fault_case(int codec)
     int slot[2] = {-1, -1};
     if (nf >= 1)
         slot[0] = mc::choose(N);
-    std::string head = mc::fmt("codec=%s cap=%d payloads %s|%s|%s faults:", gs::codec_name(codec), x.cap, gsref::hex(*x.p[0]).c_str(),
-                               gsref::hex(*x.p[1]).c_str(), gsref::hex(*x.p[2]).c_str());
+    std::string head = mc::fmt("codec=%s cap=%d payloads %s|%s|%s faults:", gs::codec_name(codec), x.cap, shx(*x.p[0]).c_str(),
+                               shx(*x.p[1]).c_str(), shx(*x.p[2]).c_str());
     if (nf <= 1)
     {
         run_faulted(x, nf, slot, head.c_str(), "");
@@ -300,11 +300,57 @@ static void fault_case(int codec)
     mc::more_cases((uint64_t)(N - after), (uint64_t)(N - after));
 }
 
+// ---- large receive buffers ----------------------------------------------------------------------------------
+// "every receive buffer size": capacities around the powers of two where a narrowed length/capacity field wraps.
+// For each capacity, frames whose unescaped length (payload + CRC byte) is cap-2, cap-1 (exact fit: the receiver
+// stores at most cap-1 bytes) and cap (one too many), from three payload patterns, fed byte by byte; then two short
+// valid frames.  Expected: a frame that fits is delivered intact on its last byte; the one that does not is answered
+// with OVERFLOW and not delivered; afterwards the short frames come out (with START == STOP the first one may be lost
+// after the over-long frame).  The monitor judges memory / soundness / overflow on every byte as everywhere else.
+static const int LARGE_CAPS_QUICK[] = {127, 128, 129, 255, 256, 257, 300, 511, 512, 1024};
+static const int LARGE_CAPS_THOROUGH[] = {9,   16,  17,  31,  32,   33,   63,   64,   65,   127,  128,   129,   130,   254,   255,  256,
+                                          257, 258, 300, 511, 512,  513,  1023, 1024, 1025, 4095, 4096,  4097,  32767, 32768, 32769,
+                                          65535, 65536, 65537};
+static void large_buffer_case(int codec)
+{
+    gs::Markers M = gs::markers(codec);
+    const int *caps = mc::thorough() ? LARGE_CAPS_THOROUGH : LARGE_CAPS_QUICK;
+    int ncaps = mc::thorough() ? (int)(sizeof LARGE_CAPS_THOROUGH / sizeof(int)) : (int)(sizeof LARGE_CAPS_QUICK / sizeof(int));
+    int first = mc::choose(ncaps * 9);
+    int cap = caps[first / 9];
+    int unescaped = cap - 2 + (first % 9) / 3; // payload + CRC byte: cap-2, cap-1 (exact fit), cap (one too many)
+    int pattern = first % 3;
+    static const char *pname[3] = {"counting bytes", "all 'a'", "all marker bytes"};
+    Bytes p;
+    for (int i = 0; i < unescaped - 1; i++)
+        p.push_back(pattern == 0 ? (uint8_t)(i * 7 + 1) : pattern == 1 ? (uint8_t)'a' : (i % 3 == 0 ? M.start : i % 3 == 1 ? M.stub : M.stop));
+    bool fits = unescaped <= cap - 1;
+    mc::describe("codec=%s cap=%d frame with %d unescaped bytes (payload %zu + CRC; %s), %s, then two short frames", gs::codec_name(codec), cap,
+                 unescaped, p.size(), fits ? (unescaped == cap - 1 ? "exact fit" : "fits") : "one byte too long", pname[pattern]);
+    mc::nontrivial();
+    Rig rig(codec, cap, !M.same());
+    Run run;
+    Bytes big = gsref::encode(M, p), small1 = gsref::encode(M, Bytes{'a'}), small2 = gsref::encode(M, Bytes{M.stub, 'b'});
+    feed_all(rig, big, run);
+    size_t e0 = rig.stream.size() - 1;
+    bool ok0 = expect_frame(rig, run, 0, e0, p, "large_buffer", fits ? "frame_that_fits" : "frame_one_byte_too_long");
+    size_t s1 = rig.stream.size();
+    feed_all(rig, small1, run);
+    size_t s2 = rig.stream.size();
+    feed_all(rig, small2, run);
+    bool ok1 = true;
+    if (!M.same() || fits)
+        ok1 = expect_frame(rig, run, s1, s2 - 1, Bytes{'a'}, "large_buffer", "first_short_frame_after");
+    bool ok2 = expect_frame(rig, run, s2, rig.stream.size() - 1, Bytes{M.stub, 'b'}, "large_buffer", "second_short_frame_after");
+    mc::outcome(mc::fmt("%s fits=%d ok=%d%d%d overflows=%zu", gs::codec_name(codec), fits, ok0, ok1, ok2, run.overflows.size()));
+}
+
 MC_INIT
 {
     for (int codec = 0; codec < gs::NCODEC; codec++)
     {
         mc::add_check(mc::fmt("garbage_prefix.%s", gs::codec_name(codec)), [codec] { garbage_prefix_case(codec); });
         mc::add_check(mc::fmt("fault_sequences.%s", gs::codec_name(codec)), [codec] { fault_case(codec); });
+        mc::add_check(mc::fmt("large_buffers.%s", gs::codec_name(codec)), [codec] { large_buffer_case(codec); });
     }
 }
